@@ -24,9 +24,9 @@ word is none of `address` / `mtu` / `vrf` / `ip` (`ip ospf cost 10`, `ip helper-
 Lines starting with `switchport` are never unrelated: they make the port a switchport
 (`switchport nonegotiate` is outside the theorem grammar and covered by the correspondence).
 
-Not proved (correspondence only): `interface_number` / `subinterface_number` (the two lazy
-regexes, mirrored character-wise by `lazyNum` / `lazySub`), `ordinal_list` for names with a
-class word, `add` / `remove` / `except` lines of `trunk_vlans_allowed`.
+Not proved (correspondence only): `ordinal_list` for names with a class word, `interface_number`
+for names written `.sub:chan` (the code keeps the `.sub` there), `add` / `remove` / `except`
+lines of `trunk_vlans_allowed`.
 -/
 namespace Ccp.C19
 open Ccp.Ios Ccp.Tree Ccp.Py
@@ -212,6 +212,33 @@ theorem ordinal_list_roundtrip (d : Intf.Intf) (h : C15.WellFormed d) :
         some [optI d.slot, optI d.card, Int.ofNat d.port, optI d.sub, optI d.chan, -1]) := by
   obtain ⟨s, hr, hp⟩ := C15.name_roundtrip d h
   exact ⟨s, hr, fun hs => ordinalList_hdr s hs d hp⟩
+
+/-- **`subinterface_number`** of `interface <prefix><digits><more>[ <class words>]`: the whole
+number word `digits ++ more` (`2/0.100`, `1/0:3.7`).  `TailOk tl`: nothing, or one blank and
+words separated by single blanks (what `(\s\S+)*\s*$` accepts). -/
+theorem subinterface_number_roundtrip (p ds more tl : Str) (hp : p ≠ []) (hpc : ∀ c ∈ p, isAlphaHyphen c = true)
+    (hds : ds ≠ []) (hdd : ∀ c ∈ ds, isDigit c = true)
+    (hm : ∀ c ∈ more, isSpace c = false) (hmh : ∀ c, more.head? = some c → isDigit c = false)
+    (ht : TailOk tl) :
+    subinterfaceNumber (kInterface ++ ' ' :: p ++ (ds ++ more ++ tl)) = some (ds ++ more) :=
+  subinterfaceNumber_hdr p ds more tl hp hpc hds hdd hm hmh ht
+
+/-- **`interface_number`** of `interface <prefix><digits><mid>[.<sub>][ <class words>]`: the number
+word without the trailing subinterface (`2/0` for `2/0.100`, `1/0:3` for `1/0:3.7`); `mid` has
+no whitespace and no dot. -/
+theorem interface_number_roundtrip (p ds mid tl : Str) (sub : Option Str) (hp : p ≠ [])
+    (hpc : ∀ c ∈ p, isAlphaHyphen c = true) (hds : ds ≠ []) (hdd : ∀ c ∈ ds, isDigit c = true)
+    (hm : ∀ c ∈ mid, isSpace c = false ∧ c ≠ '.') (hmh : ∀ c, mid.head? = some c → isDigit c = false)
+    (hs : ∀ s, sub = some s → s ≠ [] ∧ ∀ c ∈ s, isDigit c = true) (ht : TailOk tl) :
+    interfaceNumber (kInterface ++ ' ' :: p ++ (ds ++ (mid ++ (dotSub sub ++ tl)))) = some (ds ++ mid) :=
+  interfaceNumber_hdr p ds mid tl sub hp hpc hds hdd hm hmh hs ht
+
+-- non-vacuity: ` point-to-point` is an accepted tail, two blanks between class words are not
+example : TailOk " point-to-point".toList ∧ ¬ TailOk " a  b".toList := by
+  refine ⟨Or.inr ⟨⟨_, rfl⟩, by decide +kernel⟩, ?_⟩
+  rintro (h | ⟨_, h⟩)
+  · cases h
+  · revert h; decide +kernel
 
 /-- **Factory transparency** (model level): the texts, parent links and hence the derived child
 lists of a parse are a function of the syntax flag, the comment delimiters, `ignore_blank_lines`
